@@ -36,6 +36,9 @@ def inputs_for(tier, seed):
     # input blocks whose names look like the generator's own
     for i in range(400 if tier == "quick" else 8000):
         out.append(("gennames", gen_graphs.random_closed(rng, rng.randrange(3, 10)), "basic-gn"))
+    # written to a dictionary and read back between the stages
+    for i in range(400 if tier == "quick" else 8000):
+        out.append(("reload", gen_graphs.random_closed(rng, rng.randrange(3, 12)), "basic-rw"))
     nrand = 1200 if tier == "quick" else 40000
     for i in range(nrand):
         n = rng.randrange(5, 13) if i % 2 == 0 else rng.randrange(13, 41)
@@ -48,7 +51,7 @@ def exh5_shards():
 
 
 def block_factory(kind):
-    if kind in ("basic", "basic-gn"):
+    if kind in ("basic", "basic-gn", "basic-rw"):
         return None
     if kind == "bc":
         from numba_scfg.core.datastructures.basic_block import PythonBytecodeBlock
@@ -88,6 +91,27 @@ def run_one(item):
                 r["stage"] = k
                 recs.append(r)
 
+    if pk.endswith("-rw"):
+        # two (three) sessions: the graph is written to a dictionary and read back between the stages,
+        # the next stage runs on the re-read graph (a fresh name generator that must respect the names held)
+        from numba_scfg.core.datastructures.scfg import SCFG
+
+        exc = None
+        for k, st in enumerate(stages.STAGES):
+            try:
+                getattr(sc, st)()
+            except Exception as e:  # noqa
+                exc = stages.exc_site(e)
+                exc["stage"] = st
+                break
+            on_stage(k, st, sc)
+            try:
+                sc, _ = SCFG.from_dict(sc.to_dict())
+            except Exception as e:  # noqa
+                exc = stages.exc_site(e)
+                exc["stage"] = st + " (write / read back)"
+                break
+        return texts, exc, recs
     exc = stages.run_stages(sc, on_stage)
     return texts, exc, recs
 
@@ -240,4 +264,8 @@ def rebuild(graph, payload, upto_stage):
         getattr(sc, st)()
         if k == upto_stage:
             break
+        if str(payload).endswith("-rw"):
+            from numba_scfg.core.datastructures.scfg import SCFG
+
+            sc, _ = SCFG.from_dict(sc.to_dict())
     return orig, sc
